@@ -245,7 +245,10 @@ func writeGroupIni(cmd *Command, group *Group, namespace string, writer io.Write
 		}
 
 		if comments && len(option.Description) != 0 {
-			fmt.Fprintf(writer, "; %s\n", option.Description)
+			// every line of the description has to be a comment
+			for _, line := range strings.Split(option.Description, "\n") {
+				fmt.Fprintf(writer, "; %s\n", strings.TrimRight(line, "\r"))
+			}
 		}
 
 		oname := optionIniName(option)
